@@ -419,6 +419,9 @@ class Sym:
             c = n["fn"].get("ctor")
             if c:
                 return [(st, (VAL, ("ctor", short_adt(c["adt"]), c["variant"], c["nfields"])))]
+            if short_path(n["fn"]["path"]) in RET_POLY and n["fn"].get("targs"):
+                # `map(str::parse::<u32>)`: the type argument decides the result, keep it with the function value
+                return [(st, (VAL, ("fnref", n["fn"]["path"], n["fn"].get("dp"), tuple(n["fn"]["targs"]))))]
             return [(st, (VAL, ("fnref", n["fn"]["path"], n["fn"].get("dp"))))]
         return [(st, (VAL, ("zst", n.get("ty"))))]
 
@@ -1355,10 +1358,14 @@ class Sym:
         if fval[0] == "fnref":
             tgt = self.fx.by_dp.get(fval[2])
             f = dict(path=fval[1], dp=fval[2])
+            if len(fval) > 3:
+                f["targs"] = list(fval[3])
             fake = dict(k="Call", fn=f, args=[], sp=n.get("sp", "?"), ty="?")
             r = self.M.apply_model(self, fake, f, list(args), [], st)
             if r is not None:
                 return r
+            if len(fval) > 3 and short_path(fval[1]) in RET_POLY:
+                return [(st, (VAL, ("call", short_path(fval[1]) + "::<%s>" % self.subst_ty(fval[3][-1]), tuple(args))))]
             if tgt and tgt in self.fx.bodies and not self.opaque(tgt) and tgt not in self.stack \
                     and len(self.stack) < self.inline_depth and not has_loop(self.fx.bodies[tgt]) \
                     and self.fx.bodies[tgt]["krate"] in self.krates:
